@@ -1964,6 +1964,13 @@ class Comparator(BinaryOperator):
                     yield values
         self.mark_cache_covered(sources)
 
+    def yield_final_output_from_cache(self, variables_sources, cache: Optional[IndexedCache] = None,
+                                      yield_when_false: Optional[bool] = None) -> Iterable[Dict[int, HashedValue]]:
+        # a row that is served from the cache binds this comparison to its truth value like a row that was evaluated
+        # does: another occurrence of the same comparison object under that row reads it.
+        for output in super().yield_final_output_from_cache(variables_sources, cache, yield_when_false):
+            yield {**output, self._id_: HashedValue(not self._is_false_)}
+
     def apply_operation(self, operand_values: Dict[int, HashedValue]):
         return self.operation(operand_values[self.left._id_].value, operand_values[self.right._id_].value)
 
